@@ -168,10 +168,12 @@ def rule_b(ck, R):
         for p in ps:
             conds = p.cond_terms()
             first = conds[0] if conds else None
-            if not (first is not None and first[0] == 'cmp' and first[2] == ('&b', FLAGS, C(INIT)) and first[3] == C(INIT)):
+            if not (first is not None and first[0] == 'cmp' and first[1] in ('==', '!=') and first[2] == ('&b', FLAGS, C(INIT)) and first[3] in (C(INIT), C(0))):
                 bad = 'first decision is %s, not the INITIALISED test' % (fmt(first) if first else None)
                 continue
-            if first[1] == '!=':
+            # the bit is a single bit: (flags & INIT) != INIT and (flags & INIT) == 0 both say "not initialised"
+            uninit = (first[1] == '!=') == (first[3] == C(INIT))
+            if uninit:
                 un += 1
                 if code_of(p.ret) != C(E['REG_ACCESS_UNINITIALISED']):
                     bad = 'uninitialised table answered with %s' % fmt(code_of(p.ret) or C(-1))
